@@ -12,7 +12,7 @@ for line in open(res):
         rows[name] = (p[2], rest[4].strip() if len(rest) > 4 else "")
 print("| seed | property | change (summary by its author) | detected |")
 print("|---|---|---|---|")
-for d in sorted(glob.glob("seeded/%s*" % prefix)):
+for d in sorted(x for x in glob.glob("seeded/%s*" % prefix) if os.path.isdir(x)):
     name = os.path.basename(d)
     m = json.load(open(os.path.join(d, "meta.json")))
     rc, first = rows.get(name, ("?", ""))
